@@ -10,13 +10,13 @@
    (2) raises or returns a consistent IR ... C17_consistent   (FULL: no well-formedness hypothesis on p; Inv =
        C01's I1-I7: use-def both directions, producer/index, node.graph, ownership flags, initializers keyed
        by name, inputs/initializers without producer, owner iff role.)
-   (3) re-serialization is a fixpoint ...... REFUTED on the code as it exists: C17_ser_fixpoint_refuted
-       (witness replayed on the implementation on every run; known finding
-       fixpoint-initializer-empty-value-info).  The positive statement
+   (3) re-serialization is a fixpoint ...... NOT PROVED.  The statement
          C17_ser_fixpoint : deser p = Ok (h,m) -> ser h m = Ok (h1,q) ->
-                            exists h' m' h'' , deser q = Ok (h',m') /\ ser h' m' = Ok (h'', q)
-       is NOT proved, not even away from the refuting site; it is evaluated by vm_compute on every generated
-       case (Canon.model_fixpoint) and compared with the implementation's behaviour.
+                            exists h' m' h'', deser q = Ok (h',m') /\ ser h' m' = Ok (h'', q)
+       was refuted by the faithful model on the code as it was (finding
+       fixpoint-initializer-empty-value-info, fixed by /repo 420823a; the model follows the fix and the
+       former witness is kept as an Example).  It is evaluated by vm_compute on every generated case
+       (Canon.model_fixpoint) and compared with the implementation's behaviour: tested, not proved.
    (4) no file access ...................... holds of the model by construction (deser_model / ser_model have
        no file-system component: C17_deser_function_of_proto); on the implementation it is observed with
        audit hooks on every run (not a theorem). *)
@@ -65,16 +65,11 @@ Example C17_output_named_like_input_rejected :
   deser_model (mkMP 1 (Gp 0 0 [mkVI 1 0 false] [] [] [] (NCons (Np 0 10 0 [] [1] ANil) NNil)) []) = Raise ValueError.
 Proof. vm_compute. reflexivity. Qed.
 
-(* ---- the re-serialization fixpoint is refuted by the faithful model (as by the code):
-   initializer w (name 1, tensor-derived payload 5) with a type-less value_info entry for w (payload 0). *)
+(* ---- the former refutation of the fixpoint (fixed in /repo by 420823a): an initializer w (name 1,
+   tensor-derived payload 5) with a type-less value_info entry for w (payload 0).  Before the fix the
+   entry erased the tensor-derived type, q = ser (deser p) had no value_info for w and ser (deser q) had
+   one.  With the repaired deserializer the model (like the code) reaches a fixpoint on it. *)
 Definition fix_witness : mproto :=
-  mkMP 1 (Gp 2 0 [] [] [mkTP 1 3 5 false false] [mkVI 1 0 false] NNil) [].
-Theorem C17_ser_fixpoint_refuted :
-  exists p h m h1 q,
-    deser_model p = Ok (h, m) /\ ser_model [] h m = Ok (h1, q) /\
-    exists h' m' h'' q', deser_model q = Ok (h', m') /\ ser_model [] h' m' = Ok (h'', q') /\ q' <> q.
-Proof.
-  exists fix_witness. vm_compute. eexists _, _, _, _. split; [reflexivity|]. split; [reflexivity|].
-  eexists _, _, _, _. split; [reflexivity|]. split; [reflexivity|]. discriminate.
-Qed.
-Print Assumptions C17_ser_fixpoint_refuted.
+  mkMP 1 (Gp 2 0 [] [] [mkTP 1 3 5 false false []] [mkVI 1 0 false] NNil) [].
+Example C17_former_fixpoint_witness_now_fixed : model_fixpoint [] fix_witness = true.
+Proof. vm_compute. reflexivity. Qed.
